@@ -245,11 +245,15 @@ func (rc runCase) single() string {
 }
 
 func (k *checker) execProgram(src string) (lines []string, detail string) {
-	dir := k.rn.NewDir()
+	return k.execProgramOn(k.rn, src)
+}
+
+func (k *checker) execProgramOn(rn *run.Runner, src string) (lines []string, detail string) {
+	dir := rn.NewDir()
 	defer os.RemoveAll(dir)
 	run.WriteFiles(dir, map[string]string{"main.fer": src})
 	k.c.Count("native_programs", 1)
-	b := k.rn.CompileNative(dir, "main.fer")
+	b := rn.CompileNative(dir, "main.fer")
 	if !b.Compile.OK() || !b.Exists {
 		m := firstErr(run.StripANSI(b.Compile.Stderr + "\n" + b.Compile.Stdout))
 		if b.Compile.OK() {
@@ -257,7 +261,7 @@ func (k *checker) execProgram(src string) (lines []string, detail string) {
 		}
 		return nil, "native compile failed (" + b.Compile.Term() + "): " + m
 	}
-	pr := k.rn.Exec(b)
+	pr := rn.Exec(b)
 	out := strings.TrimRight(pr.Stdout, "\n")
 	if out != "" {
 		lines = strings.Split(out, "\n")
@@ -296,6 +300,10 @@ func reTmp(l string) string {
 func (k *checker) runAlone(rc runCase) []string {
 	src := rc.single()
 	got, detail := k.execProgram(src)
+	if detail != "" || strings.Join(got, "|") != strings.Join(rc.want, "|") {
+		// what is reported comes from the ferret binary, not from the in-process pipeline
+		got, detail = k.execProgramOn(k.rn.Real(), src)
+	}
 	k.judgeRun(rc, got, detail)
 	return got
 }
@@ -477,6 +485,8 @@ func Run(c *vl.Ctx) {
 	k.pool.Timeout = 120 * time.Second
 	k.pool.Confirm = 240 * time.Second
 	k.rn = run.New(c)
+	k.rn.Fast = os.Getenv("VERIF_NOFAST") == ""
+	defer k.rn.Close()
 	// budgets count from here (the compiler and the runtime are built); levels are done
 	// shortest first, so a capped run is complete up to a smaller length
 	if quick {
